@@ -74,7 +74,7 @@ PROPS = {
                 focus={'compAdd', 'compDelete', 'compUpdate', 'subscribe', 'unsubscribe'},
                 topics=slice_of(['compAdd', 'compDelete', 'compUpdate', 'subscribe', 'unsubscribe'],
                                 outs={'compAddBcast', 'compDeleteBcast', 'compUpdateBcast', 'subscribeResp', 'unsubscribeResp', 'error'})),
-    'C14': dict(modules=['Hagall.Props.C14'], profiles=['custom', 'mixed'], n=(240, 4000), focus={'custom'},
+    'C14': dict(modules=['Hagall.Props.C14'], profiles=['custom', 'mixed', 'crowd'], n=(240, 4000), focus={'custom'},
                 topics=slice_of(['custom'])),
     'C16': dict(modules=['Hagall.Props.C16', 'Hagall.Props.C01Conc'], profiles=['module', 'mixed'], n=(240, 4000), focus={'action', 'assetAdd'},
                 topics=slice_of(['action', 'assetAdd', 'join', 'entityDelete', 'disconnect'],
